@@ -2,7 +2,10 @@ package main
 
 // C07 (codecs), C08 (collation), C09 (compound), C10 (nodes), C12/C16 (two trees), C13 (aliasing).
 
-import "fmt"
+import (
+	"fmt"
+	"strings"
+)
 
 func simple(h, label string, params ...int) *Scenario {
 	return &Scenario{Harness: h, Params: params, Label: label}
@@ -105,6 +108,17 @@ func tableTemplates(c *CheckRun) []histB {
 	return out
 }
 
+// fanKindsOf: the wide-node bases of F-fan-kind for the kinds whose label carries the given marker.
+func fanKindsOf(c *CheckRun, mask int, marker string) []*Scenario {
+	var out []*Scenario
+	for _, s := range fanKindsOpt(c, mask, c.Tier != "quick", true) {
+		if strings.Contains(s.Label, marker) {
+			out = append(out, s)
+		}
+	}
+	return out
+}
+
 func compoundScenarios(c *CheckRun) []*Scenario {
 	var out []*Scenario
 	for i, b := range tableTemplates(c) {
@@ -200,7 +214,7 @@ func nodeScenarios(c *CheckRun) []*Scenario {
 			continue
 		}
 		for v := 0; v < variants; v++ {
-			if sh.low {
+			if sh.low != 0 {
 				continue
 			}
 			tot := sh.m
@@ -209,6 +223,9 @@ func nodeScenarios(c *CheckRun) []*Scenario {
 			}
 			bs := fanBytes(tot, c.Seed, v)
 			for op := 0; op <= 2; op++ {
+				if op == 0 && sh.m >= 256 {
+					continue // no byte is left to add to a node that holds all 256
+				}
 				pmode := 0
 				if op != 2 && (sh.m > 17 || sh.from > 17) {
 					pmode = 1 // a symbolic update of a 48/256-way node is already a 256-way enumeration
@@ -354,6 +371,10 @@ func aliasScenarios(c *CheckRun) []*Scenario {
 			out = append(out, simple("hAlias", "collation []byte: call with spare capacity", 15, 0, 2, 0, cSpec(0, 2), 1, op, cSpec(2, 3), sp))
 		}
 	}
+	// Prefix over stored "ab", "abc" with the prefix "a" / "ab" / "b": the argument buffer is reused before the sequence is ranged over
+	for _, pu := range []int{0, 2, 1} {
+		out = append(out, simple("hAlias", "collation []byte: lazy Prefix sequence", 15, 0, 3, 0, cSpec(2, 2), 0, 0, cSpec(5, 3), 0, 3, cSpec(pu, 2), 1))
+	}
 	out = append(out, simple("hAlias", "collation []byte: one buffer reused", 15, 1, 3, 0, cSpec(0, 2), 1, 0, cSpec(2, 2), 0, 1, cSpec(0, 2), 0))
 	return out
 }
@@ -395,6 +416,8 @@ func init() {
 				k1 = k1[:12]
 			}
 			out = append(out, k1...)
+			// wide nodes (17..49 strings branching at one collation-key byte; concrete keys), incl. a node48 with holes
+			out = append(out, fanKindsOf(c, ckMap|ckSize|ckIter, "/coll")...)
 			return out
 		},
 		Bounds: []string{"original strings: concrete members of {a, b, ab, é, \"\", abc, á, B} (string, []byte, []rune keys); the collator is an uninterpreted function F: fresh symbolic key bytes per string, lengths 1..3 in every combination, plus lengths maxPrefixLen-1 / +2 for keys sharing a long prefix",
@@ -404,7 +427,9 @@ func init() {
 	})
 	register(&CheckSpec{
 		ID: "C09", Level: "model_checking", Summaries: true, Rule: stateRule,
-		Scenarios:   compoundScenarios,
+		Scenarios: func(c *CheckRun) []*Scenario {
+			return append(compoundScenarios(c), fanKindsOf(c, ckMap|ckSize|ckIter, "/compound")...)
+		},
 		Bounds:      []string{"table codec: key ids with symbolic encodings of lengths 1..3 (thorough 1..5) in every combination and maxPrefixLen+2/+3, under assume(injective ∧ prefix-free); the key order is the byte order of the encodings", "schema codec uint16 ‖ string ‖ 0x00 assembled from the library's codecs, symbolic field values, string field 0..2 bytes without 0x00", "assertion families Search/Delete/Size/All/Backward, Minimum/Maximum/TopK/BottomK, Range, well-formedness (thorough: re-iteration, purity) rotated over the templates"},
 		Outside:     []string{"codecs whose encodings exceed the length bound", "codecs whose two Transform results differ"},
 		Assumptions: commonAssume,
@@ -456,6 +481,9 @@ func init() {
 			// reader premise: the pure queries of C15 (which <= 5) on every family
 			pure := pureScenarios(c)
 			for _, s := range pure {
+				if s.Harness == "hHuge" {
+					continue // C15's long-key scenarios carry no query selector
+				}
 				// extra = [which, sa, sb] are the last three params
 				w := s.Params[len(s.Params)-3]
 				if w <= 5 {
